@@ -20,6 +20,16 @@ NA = {
 }
 
 CLAIMS = {
+    'C18': dict(
+        category='exploration', technique='simulated disk as seam monitor: every path reaching the OS seam during a call is recorded; seeded search over path spellings, root spellings, working directories and chain prefixes (weak fit for simulation, labelled as such: no schedule or fault dimension)',
+        engine='E2-simfs-monitor',
+        text='A simulated disk holds a root with nested files, siblings whose names extend the root\'s name (directory and file), and files in ancestors. RawFileSystem(constrain_path=True) is created under seeded root spellings (trailing separator, relative, with ".." segments, doubled slash) and working directories, alone or inside a FileSystemChain with a sub-folder prefix, and is driven with seeded path strings (.., ., both separators, absolute prefixes, names of outside files) through in / [] / open_bin / open_str / walk_folder / cache_key. The monitor fails the run if any operation touched a path that is not the root or below root+separator, or if data of an outside file was returned; packlist.unify_path must raise or return a non-escaping path for the same strings.',
+        note='POSIX path semantics; no symlinks on the simulated disk; differential/seam-monitor evidence, not a schedule search.', ref='5/C18'),
+    'C19': dict(
+        category='exploration', technique='differential simulation over one in-memory disk: four storage back-ends materialised from the same seeded file set, dict reference model, chain construction histories (weak fit for simulation, labelled as such)',
+        engine='E2-simfs',
+        text='A seeded file set (nested folders, mixed-case names, names and folders that are string prefixes of others) is materialised as VirtualFileSystem, a zip written with zipfile, a VPK written with the library and a directory tree on the simulated disk. Seeded query spellings (case changes, both slashes) must agree with a folded, slash-normalised dict on in / [] / open_bin; walk_folder for seeded folders ("", prefix-of-sibling, mixed case, backslash, trailing slash, missing) must list exactly the files inside, each listed name must resolve and open to its bytes, iteration equals walk_folder(""); chains built by seeded add_sys(prefix, priority) sequences over up to 4 members (names shared between members, also in another letter case) must return the first member\'s content, address prefixed members relative to their prefix, and list each name once.',
+        note='Directory backend judged for exact-case spellings only; names unique case-insensitively within one set.', ref='5/C19'),
     'C10': dict(
         category='exploration', technique='deterministic simulation: seeded access/save/reopen histories on an in-memory disk over given files (committed corpus, generated maps, container variants from an independent codec, sample map), judged by an independent container decoder plus the reader on fresh objects',
         engine='history-machine+E2-simfs',
